@@ -17,7 +17,9 @@ Templates ==
     [ins |-> << J("A", TRUE, "amt") >>, outs |-> << "A", "N" >>],
     [ins |-> << J("A", TRUE, "tok") >>, outs |-> << "A", "T" >>],
     [ins |-> << J("A", FALSE, "amt+tok") >>, outs |-> << "N", "T" >>],
-    [ins |-> << I("B", TRUE), J("A", TRUE, "tok") >>, outs |-> << "T" >>] }
+    [ins |-> << I("B", TRUE), J("A", TRUE, "tok") >>, outs |-> << "T" >>],
+    \* more inputs than outputs, the blinder index beyond the number of outputs
+    [ins |-> << I("A", TRUE), I("A", FALSE), I("B", TRUE) >>, outs |-> << "B" >>] }
 MaxP == atoi(IOEnv.GEN_PARTIES)
 Structs == UNION { [1..n -> Templates] : n \in 1..MaxP }
 Orders(n, lp) == { o \in [1..n -> 1..n] : (\A i, j \in 1..n : i # j => o[i] # o[j]) /\ o[n] = lp }
